@@ -166,10 +166,8 @@ def hyp_part(n_examples, shard):
 
 def run(tier, t0):
     part = runner.hyp_shards("vf.props.c13", "hyp_part", 6400 if tier == "quick" else 320000)
-    fuzz_note = "atheris campaign not part of this tier"
-    if tier == "thorough":
-        from ..fuzz import driver
-        fuzz_note = driver.campaign(part, "text", runs=300000)
+    from ..fuzz import driver
+    fuzz_note = driver.campaign(part, "text", runs=160000 if tier == "quick" else 4000000)
     rule = ("texts = 1-5 chunks: filler outside / inside [A-Za-z:/], arbitrary Unicode, planted valid v2/v3 vectors (incl. "
             "minimal 26-character v2 vectors) between random delimiters, v4 vectors, near-valid vectors (<= 2 mutations), "
             "repeats of an earlier vector in the same or another spelling, vectors glued to vector-like characters, "
@@ -179,4 +177,4 @@ def run(tier, t0):
                          ["results compared as a set (order comes from a set and is unspecified)",
                           "completeness asserted only for planted vectors that occur delimited on both sides", fuzz_note],
                          required=["chunk:" + k for k in ("filler-out", "filler-in", "unicode", "valid23", "valid4", "near", "repeat", "respelled-repeat", "glued", "minor", "min-v2")]
-                         + ["has-delimited-vector", "has-undelimited-vector", "26-char-v2"])
+                         + ["has-delimited-vector", "has-undelimited-vector", "26-char-v2", "atheris-execs:text"])
